@@ -257,7 +257,11 @@ class C35(Prop):
             "its dtype from bool, int8, int32, int64, float32, float64 independently (so A vs B in "
             "merge/stack and the blocks of a block list mix types in every order; merge: 50% equal "
             "types), float values mostly non-integral multiples of 1/4 so that truncation is visible; "
-            "bool matrices and the mixed-type B of a merge carry no duplicate indices; "
+            "bool matrices and the mixed-type B of a merge carry no duplicate indices; INDEX TYPES: the "
+            "integer bound / count / line-number / size arguments of expand_index_pointers, "
+            "expand_indices_*, rldecode, slice_*, zero_*, merge_matrices, block_diag_index/matrix are "
+            "numpy arrays of a type drawn from uint8..uint64, int8..int64 (65% not int64), values in "
+            "range, selections permuted / repeated / decreasing; "
             "non-trivial = non-empty operand; "
             "distinct by (case, output)")
     trusted = ["values are multiples of 1/4 and enter Coq as 4*x in Z (all modelled operations are "
@@ -280,7 +284,33 @@ class C35(Prop):
         weights = [w for _, w in self.FNS]
         for _ in range(n):
             fn = rng.choices(names, weights)[0]
-            yield getattr(self, "g_" + fn)(rng)
+            case = getattr(self, "g_" + fn)(rng)
+            self._index_dtype(rng, case)
+            yield case
+
+    #: data types of integer index / count / pointer arguments
+    IDTYPES = ["uint8", "uint16", "uint32", "uint64", "int8", "int16", "int32", "int64"]
+    #: per utility: the integer-array arguments that receive the drawn type
+    INDEX_ARGS = {"expand": ["lo", "hi"], "expand_nd": ["ind"], "expand_incr": ["x"],
+                  "rldecode": ["n"], "slice": ["ind"], "slice_indices": ["ind"], "zero": ["ind"],
+                  "merge": ["lines"], "bdi": ["m", "n"], "bdm": ["sz"]}
+
+    def _index_dtype(self, rng, case):
+        """Draw the dtype of the integer arguments (65% narrow/unsigned) and keep the values in
+        its range: unsigned types get no negative value (bounds are shifted, counts clipped)."""
+        args = [a for a in self.INDEX_ARGS.get(case["fn"], []) if isinstance(case.get(a), list)]
+        if not args:
+            return
+        idt = rng.choice(self.IDTYPES) if rng.random() < 0.65 else "int64"
+        case["idt"] = idt
+        if idt.startswith("u"):
+            low = min([v for a in args for v in case[a]] + [0])
+            if low < 0:
+                if case["fn"] == "rldecode":
+                    case["n"] = [max(c, 0) for c in case["n"]]
+                else:
+                    for a in args:
+                        case[a] = [v - low for v in case[a]]
 
     def g_expand(self, rng):
         k = rng.choice([0, 1, 1, 2, 3, 4, 5, 6])
@@ -447,11 +477,11 @@ class C35(Prop):
             return mask, [int(i) for i in np.where(mask)[0]]
         if case["kind"] == "int":
             return int(case["ind"][0]), list(case["ind"])
-        return np.array(case["ind"], dtype=int), list(case["ind"])
+        return np.array(case["ind"], dtype=np.dtype(case.get("idt", "int64"))), list(case["ind"])
 
     def run_impl(self, case):
         fn = case["fn"]
-        ia = lambda l: np.array(l, dtype=int)
+        ia = lambda l: np.array(l, dtype=np.dtype(case.get("idt", "int64")))
         if fn == "expand":
             return guarded(lambda: ints(ao.expand_index_pointers(ia(case["lo"]), ia(case["hi"]))))
         if fn == "expand_nd":
